@@ -22,6 +22,7 @@ DEFAULT_INNER_TAG_MAP = {
     "if": ["else", "elsif"],
     "case": ["when", "else"],
     "unless": ["else", "elsif"],
+    "tablerow": ["break", "continue"],
     "translate": ["plural"],
 }
 
